@@ -472,7 +472,7 @@ def rule_i8(prog, rep, rid='I8'):
         for x in walk(f.body):
             if x.get('kind') == 'CallExpr' and prog.callee_name(x) == 'memset' and len(children(x)) > 3:
                 sz = canon(children(x)[3])
-                if 'maxslots' in sz and 'sizeof(qhasharr_slot_t)' in sz and '*' in sz and '-' not in sz and '/' not in sz:
+                if 'maxslots' in sz and 'sizeof(qhasharr_slot_t)' in sz and ' * ' in sz and ' - ' not in sz and ' / ' not in sz:
                     ok, how = True, 'memset of %s bytes' % sz
         if not ok:
             for x in walk(f.body):
